@@ -1,6 +1,6 @@
 """C05 - control flow, scoping and closures: scope table, exit algebra, declaration/assignment layering, short circuit."""
 import re
-from .core import (builds_error, CheckError, find_match, arm_region, pat_str, strip_ref, origins, only_when, pat_paths,
+from .core import (scope_constructors, builds_error, CheckError, find_match, arm_region, pat_str, strip_ref, origins, only_when, pat_paths,
                    Registry, op_local)
 
 META = {
@@ -36,6 +36,7 @@ def run(F, rep, tier):
                 arms[p.rsplit('::', 1)[-1]] = i
     regions = {v: arm_region(F, eb, me, i) for v, i in arms.items()}
     WP = 'core::Env::with_parent'
+    SC = scope_constructors(F)
 
     # ---------------- R5.1
     rep.rule('R5.1', 'scope table over all arms of evaluate: exactly While, Switch and Try call Env::with_parent; the match has no wildcard '
@@ -47,7 +48,7 @@ def run(F, rep, tier):
         rep.viol('R5.1', evaluate + '|wildcard', 'evaluate has a wildcard arm over Expr: new constructs would silently fall into it', eb.loc(0))
     rep.floor('R5.1', 'Expr arms', len(arms), 50)
     for v in sorted(arms):
-        wp = [c for c in eb.calls_in(regions[v]) if c.target == WP]
+        wp = [c for c in eb.calls_in(regions[v]) if c.target in SC]
         if (v in want_scoped) == bool(wp):
             rep.ok('R5.1', 'Expr::%s' % v, 'opens %d child scope site(s)' % len(wp))
         elif wp:
@@ -57,7 +58,7 @@ def run(F, rep, tier):
     allowed_callers = {evaluate, 'eval::evaluate_for', 'eval::<impl core::Closure>::run', 'eval::Closure::run'}
     for b in F.all_bodies():
         for c in b.calls:
-            if c.target == WP and b.path not in allowed_callers:
+            if c.target in SC and b.path not in allowed_callers:
                 owner = b.path
                 while owner in F.closure_parent:
                     owner = F.closure_parent[owner]
@@ -76,10 +77,10 @@ def run(F, rep, tier):
         for i, a in enumerate(fm['arms']):
             v = variant_of(a)
             regn = arm_region(F, efb, fm, i)
-            wp = [c for c in efb.calls_in(regn) if c.target == WP]
+            wp = [c for c in efb.calls_in(regn) if c.target in SC]
             rec = [c for c in efb.calls_in(regn) if c.target == ef]
             if len(wp) == 1 and rec and efb.dominates(wp[0].bb, rec[0].bb):
-                child = all(any(r[0] == 'call' and r[1] == WP for r in efb.roots(x.args[0])) for x in rec)
+                child = all(any(r[0] == 'call' and r[1] in SC for r in efb.roots(x.args[0])) for x in rec)
                 if child:
                     rep.ok('R5.1', 'for clause %s' % v, 'one child scope, inner clauses run inside it')
                 else:
@@ -87,7 +88,7 @@ def run(F, rep, tier):
             else:
                 rep.viol('R5.1', ef + '|%s|scope' % v, 'for clause %s: expected exactly one child scope dominating the recursive call (found %d)' % (v, len(wp)), efb.loc(min(regn)) if regn else None)
         # guard clause: no scope
-        guard_wp = [c for c in efb.calls if c.target == WP and not any(c.bb in arm_region(F, efb, fm, i) for i in range(len(fm['arms'])))]
+        guard_wp = [c for c in efb.calls if c.target in SC and not any(c.bb in arm_region(F, efb, fm, i) for i in range(len(fm['arms'])))]
         if guard_wp:
             rep.viol('R5.1', ef + '|Guard|scope', 'a guard clause opens a scope', guard_wp[0].loc())
         else:
@@ -100,13 +101,18 @@ def run(F, rep, tier):
         for i, a in enumerate(fm['arms']):
             v = variant_of(a)
             if v in ('Normal', 'Item'):
-                for c in [c for c in efb.calls_in(arm_region(F, efb, fm, i)) if c.target == WP]:
+                inarm = [c for c in efb.calls_in(arm_region(F, efb, fm, i)) if c.target in SC]
+                for c in inarm:
                     if efb.on_cycle(c.bb):
                         rep.ok('R5.2', 'evaluate_for %s' % v, 'scope created inside the iteration loop')
                     else:
                         rep.viol('R5.2', ef + '|%s|hoisted' % v, 'the per-iteration scope of a for loop is created once outside the loop: closures created in different iterations share one variable', c.loc())
+                if not inarm:
+                    # no scope is created inside this clause at all: it was hoisted out of the match (or dropped)
+                    anyc = [c for c in efb.calls if c.target in SC]
+                    rep.viol('R5.2', ef + '|%s|hoisted' % v, 'the %s clause of a for loop creates no scope of its own inside the iteration (scope constructors called in evaluate_for: %d, none in this clause): all iterations share one variable scope, closures capture the same variable' % (v, len(anyc)), anyc[0].loc() if anyc else efb.loc(0))
     for v in ('While', 'Switch'):
-        for c in [c for c in eb.calls_in(regions.get(v, set())) if c.target == WP]:
+        for c in [c for c in eb.calls_in(regions.get(v, set())) if c.target in SC]:
             if eb.on_cycle(c.bb):
                 rep.ok('R5.2', 'Expr::%s' % v, 'scope created inside the loop')
             else:
@@ -116,7 +122,7 @@ def run(F, rep, tier):
         rep.error('R5.2', 'Closure::run not found')
     else:
         cb = F.body(cr[0])
-        wp = [c for c in cb.calls if c.target == WP]
+        wp = [c for c in cb.calls if c.target in SC]
         sig = F.fns[cr[0]]['inputs']
         if len(wp) == 1:
             og = origins(cb, wp[0].args[0], passthru=('deref', 'as_ref', 'borrow'))
